@@ -123,13 +123,22 @@ func (probeFamily) Exec(c *hc.Case) {
 	type reg struct {
 		d time.Duration
 		f func()
+		t *time.Timer
 	}
 	var regs []reg
-	after := func(d time.Duration, f func()) *time.Timer {
+	defer func() {
 		mu.Lock()
-		regs = append(regs, reg{d, f})
+		for _, r := range regs {
+			r.t.Stop()
+		}
 		mu.Unlock()
-		return nil
+	}()
+	after := func(d time.Duration, f func()) *time.Timer {
+		t := hc.LiveTimer() // a timer the library has stopped does not fire
+		mu.Lock()
+		regs = append(regs, reg{d, f, t})
+		mu.Unlock()
+		return t
 	}
 	var cfg circuit.Config
 	cfg.General.TimeKeeper.Now = clk
@@ -203,12 +212,13 @@ func (probeFamily) Exec(c *hc.Case) {
 		case "fire":
 			mu.Lock()
 			var f func()
+			var t *time.Timer
 			if len(regs) > 0 {
-				f = regs[len(regs)-1].f
+				f, t = regs[len(regs)-1].f, regs[len(regs)-1].t
 			}
 			mu.Unlock()
 			if f != nil {
-				f()
+				hc.FireTimer(t, f)
 			}
 		case "call":
 			mu.Lock()
